@@ -16,7 +16,7 @@ def run(ctx, rep):
     lsp.order_rule(ctx, rep)
     lsp.same_pipeline_rule(ctx, rep)
     panicrules.evaluate(ctx, rep, ["C20"])
-    rep.floor("PANIC", 40, "audited panic sites")
+    rep.floor("PANIC", 20, "audited panic sites")
     panicrules.span_rule(ctx, rep)
     shape.shape_rule(ctx, rep, panicrules.zones_of)
     rep.assume("documents are identified by file: URIs with a UTF-8 path; protocol messages are well-formed JSON that deserialises for its method")
